@@ -152,9 +152,9 @@ PROFILES = {
             ("switch", dict(n_defs=(5, 12), samples=0.5, intxn_defs=0.2, sends_per_txn=(1, 4),
                             weights=W(switchs=4, switchc=4, csink=4, hold=3, ssink=4, lift2=1, accum=1)))],
     "C10": [("listeners", dict(n_listen=(2, 6), unlisten=0.5, unlisten_in_txn=0.5, nest=0.8, intxn_defs=0.6, drops=0.3, gcs=0.3, weak=0.15,
-                               unlisten_new_in_txn=0.4, listen_fired_in_txn=0.5, weights=W(value=2, hold=3, csink=3))),
+                               unlisten_new_in_txn=0.4, listen_fired_in_txn=0.5, listenkills=0.5, weights=W(value=2, hold=3, csink=3))),
             ("listeners-handles-dropped", dict(n_listen=(3, 6), n_txn=(6, 14), unlisten=0.5, drop_listeners=0.6, drops=0.6, gcs=0.6, weights=W(value=1, hold=2, csink=2, map=3, merge=2)))],
-    "C11": [("loops", dict(n_defs=(3, 9), samples=0.4, nested_cloops=0.5, early_loop_handle=0.4, weights=W(sloop=2.5, cloop=2.5, hold=3, snapshot=4, accum=1, merge=4, gate=1, lift2=2, mapc=2))),
+    "C11": [("loops", dict(n_defs=(3, 9), samples=0.4, nested_cloops=0.5, early_loop_handle=0.4, sends_around_loop=0.35, weights=W(sloop=2.5, cloop=2.5, hold=3, snapshot=4, accum=1, merge=4, gate=1, lift2=2, mapc=2))),
             ("loops-misuse", dict(n_defs=(3, 8), malformed=True, weights=W(sloop=2, cloop=2, hold=3, snapshot=3)))],
     "C12": [("defer-chains", dict(posts=0.3, samples=0.4, obs=0.4, max_defer=3, weights=W(defer=6, split=3, hold=3, csink=3, snapshot=4, snapshot1=2, once=1))),
             ("deferred", dict(posts=0.4, postsends=0.3, samples=0.4, sends_per_txn=(1, 4), weights=W(defer=4, split=3, hold=3, csink=3, snapshot=4, snapshot1=2, once=1.5, accum=1)))],
